@@ -56,6 +56,9 @@ FACADE = Assumed("ApplicationPropertiesFacade(properties, section)", params=["pr
                  ensures=["result.section_title is section", "(len(result.property_names) > 0) == section_nonempty(section)"],
                  why="application_properties: a facade is a view of the keys below `section`; property_names lists them")
 from pyvc.spec import REGISTRY as _R
+# also reachable when the constructor is called from code that is inlined into a verified function
+register(Assumed("application_properties.ApplicationPropertiesFacade", params=["props", "section"], returns="ApplicationPropertiesFacade",
+                 fresh_result=True, pure=True, ensures=list(FACADE.ensures), why=FACADE.why))
 _R["$fields"].types.update({"ApplicationPropertiesFacade.property_names": "List[str]", "ApplicationPropertiesFacade.section_title": "str",
                             "ApplicationProperties.separator": "str"})
 
